@@ -67,7 +67,7 @@ def url_lattice(rng: random.Random, tier: str) -> list[bytes]:
     schemes = [b"http", b"https", b"ftp", b"HTTP", b"hTTps"]
     users = [b"", b"u@", b"u:@", b"u:p@", b":p@", b"@", b"us%65r:p%40ss@", b"a:b:c@"]
     hosts = [b"example.com", b"sub.evil-site.net", b"1.2.3.4", b"0x7f.1", b"010.0.0.1", b"3232235777", b"127.0.0.1", b"ex%61mple.com", b"EXAMPLE.COM",
-             b"localhost", b"[::1]", b"example.invalidtld", b"0x7f.0x0.0.0x1", b"1.2.3", b"999.1.1.1"]
+             b"localhost", b"[::1]", b"example.invalidtld", b"info", b"com", b".com", b"docs", b"example.com.", b"a..com", b"0x7f.0x0.0.0x1", b"1.2.3", b"999.1.1.1"]
     ports = [b"", b":80", b":", b":65535"]
     segs = [b".", b"..", b"a", b"", b"%2F", b"%41", b"%2e", b"b.c", b"...", b"%4%61", b"%%36f"]
     paths = [b"", b"/"] + [b"/" + b"/".join(c) for n in (1, 2, 3) for c in itertools.product(segs, repeat=n)]
@@ -151,7 +151,13 @@ def instances(rng: random.Random, tier: str) -> list[dict]:
         add("domain", b".".join(rng.choice(labels) for _ in range(n)) + b"." + rng.choice(tlds))
     for u in url_lattice(rng, tier)[: 200 if tier == "quick" else 4000]:
         # trailing characters a URL cannot end with (' ) , . ;) would be cut off by design: keep those out of the instances
-        add("url", u, neutral=not u.endswith((b"'", b")", b",", b".", b";")) and b"[" not in u and b"(" not in u)
+        import re as _re
+
+        host = _re.match(rb"(?i)[a-z]+://(?:[^@/]*@)?([^:/?#]*)", u).group(1)
+        # (hosts the URL expression is not written for - shorter than four characters, a bare label, empty labels - are
+        # met as nodes by C10 / C12 when they occur, but are not demanded as instances)
+        hostlike = len(host) >= 4 and b"." in host.strip(b".") and not host.startswith(b".") and b".." not in host and not host.endswith(b".")
+        add("url", u, neutral=hostlike and not u.endswith((b"'", b")", b",", b".", b";")) and b"[" not in u and b"(" not in u)
     for _ in range(60 if tier == "quick" else 1000):
         local = rng.choice([b"user", b"first.last", b"a+b", b"x_y%z", b"abc"])
         add("email", local + b"@" + rng.choice(labels[2:5]) + b"." + rng.choice(tlds[:4]))
@@ -167,7 +173,8 @@ def instances(rng: random.Random, tier: str) -> list[dict]:
         stem = rng.choice([b"file", b"a", b"setup_1", b"X9", b"my_lib"])
         add("exe", stem + rng.choice([b".exe", b".EXE", b".Exe"]))
         add("dll", stem + rng.choice([b".dll", b".DLL"]))
-    for inner in (b"'WScript.Shell'", b'"Scripting.FileSystemObject"', b"a(b)c", b"((x))", b"", b"f(1,(2,3)) & g()", b'"x" & chr(41)'):
+    for inner in (b"'WScript.Shell'", b'"Scripting.FileSystemObject"', b"a(b)c", b"((x))", b"", b"f(1,(2,3)) & g()", b'"x" & chr(41)',
+                  b'IIf(ver < 6, "a", "b")', b'"{"', b"x[1", b"a<b>c", b"}]>", b'"{72C24DD5-D70A-438B-8A42-98424B88AFB8}"'):
         for name in (b"CreateObject", b"createobject", b"CREATEOBJECT"):
             add("createobject", name + b"(" + inner + b")")
     for nsec in (1, 2, 3):
